@@ -3,17 +3,77 @@
 package bandrng
 
 // Contracts for govc (see /verif/DESIGN.md). Comment-only file; compiled only under -tags verif.
-// HMAC-DRBG (oasis-core) is external: the stream itself is assumed, not verified.
+// HMAC-DRBG (oasis-core) is external: the stream itself is assumed, not verified. The ghost RngLast is the last
+// value drawn from it.
+//@ ghost RngLast Int
+// what the generator was seeded with (entropy, nonce, personalization string)
+//@ ghost RngEntropy Bz
+//@ ghost RngNonce Bz
+//@ ghost RngPers Bz
 //@ func NewRng
 //@ trusted
+//@ modifies RngEntropy, RngNonce, RngPers
+//@ ensures RngEntropy == entropyInput && RngNonce == nonce && RngPers == personalizationString
 //@ func (r *Rng) NextUint64
 //@ trusted
+//@ modifies RngLast
+//@ ensures result == RngLast && 0 <= RngLast && RngLast <= MaxUint64
 
-// Sampling without replacement, best of `tries` by total weight (bodies: see C09 in DESIGN.md; the contract
-// below is what callers rely on): cnt pairwise distinct indexes into weights.
-//@ func ChooseSomeMaxWeight
-//@ trusted
-//@ requires tries >= 1 && 0 <= cnt && cnt <= len(weights)
+// cumulative weight of the first n entries
+//@ spec wsum(w []uint64, n Int) Int = n <= 0 ? 0 : wsum(w, n - 1) + w[n-1]
+// cumulative weights grow with the prefix (weights are unsigned)
+//@ lemma wsumMono induction n: forall w []uint64, m Int, n Int :: 0 <= m && m <= n && n <= len(w) ==> wsum(w, m) <= wsum(w, n)
+// ... and strictly contain the next entry
+//@ lemma wsumStep induction n: forall w []uint64, m Int, n Int :: 0 <= m && m < n && n <= len(w) ==> wsum(w, m) + w[m] <= wsum(w, n)
+// with positive weights the first n entries weigh at least n
+//@ lemma wsumPos induction n: forall w []uint64, n Int :: (n <= len(w) && (forall j :: 0 <= j && j < n ==> w[j] >= 1)) ==> wsum(w, n) >= n
+
+// C09: the weighted pick. With a non-empty list whose total weight is positive and fits a uint64, the lucky number
+// is (next random value) mod (total weight) and the index returned is THE one whose cumulative-weight interval
+// contains it: wsum(idx) <= lucky < wsum(idx+1). In particular the index is in range and has positive weight.
+//@ func ChooseOne
+//@ uses wsumMono, wsumStep
+//@ modifies RngLast
+//@ requires len(weights) >= 1 && wsum(weights, len(weights)) <= MaxUint64 && wsum(weights, len(weights)) > 0
+//@ ensures 0 <= result && result < len(weights)
+//@ ensures wsum(weights, result) <= RngLast % wsum(weights, len(weights)) && RngLast % wsum(weights, len(weights)) < wsum(weights, result + 1)
+//@ loop 0: invariant sum == wsum(weights, #i)
+//@ loop 1: invariant currentSum == wsum(weights, #i) && currentSum <= luckyNumber && luckyNumber == RngLast % wsum(weights, len(weights)) && sum == wsum(weights, len(weights))
+
+// range assumption on weights (validator tokens / powers): each between 1 and 2^50, at most 8192 of them - so that
+// no sum of weights leaves the uint64 range
+//@ spec okWeights(w []uint64) Bool = len(w) <= 8192 && (forall i :: 0 <= i && i < len(w) ==> 1 <= w[i] && w[i] <= 1125899906842624)
+//@ lemma wsumBound induction n: forall w []uint64, n Int :: (n <= len(w) && (forall j :: 0 <= j && j < n ==> w[j] <= 1125899906842624)) ==> wsum(w, n) <= n * 1125899906842624
+
+// C09: sampling without replacement: exactly cnt indexes, each in range, pairwise different (a chosen entry leaves
+// the pool).
+//@ func ChooseSome
+//@ uses wsumPos, wsumBound
+//@ modifies RngLast
+//@ requires 0 <= cnt && cnt <= len(weights) && okWeights(weights)
 //@ ensures len(result) == cnt
 //@ ensures forall i :: 0 <= i && i < len(result) ==> 0 <= result[i] && result[i] < len(weights)
 //@ ensures forall i, j :: 0 <= i && i < j && j < len(result) ==> result[i] != result[j]
+//@ loop 0: invariant len(availableWeights) == len(weights) && len(availableIndexes) == len(weights) && len(chosenIndexes) == cnt
+//@ loop 0: invariant forall j :: 0 <= j && j < #i ==> availableWeights[j] == weights[j] && availableIndexes[j] == j
+//@ loop 1: invariant 0 <= round && round <= cnt && len(chosenIndexes) == cnt
+//@ loop 1: invariant len(availableWeights) == len(weights) - round && len(availableIndexes) == len(weights) - round
+//@ loop 1: invariant forall j :: 0 <= j && j < len(availableIndexes) ==> 0 <= availableIndexes[j] && availableIndexes[j] < len(weights) && availableWeights[j] == weights[availableIndexes[j]]
+//@ loop 1: invariant forall i, j :: 0 <= i && i < j && j < len(availableIndexes) ==> availableIndexes[i] != availableIndexes[j]
+//@ loop 1: invariant forall i :: 0 <= i && i < round ==> 0 <= chosenIndexes[i] && chosenIndexes[i] < len(weights) && (forall j :: 0 <= j && j < len(availableIndexes) ==> availableIndexes[j] != chosenIndexes[i])
+//@ loop 1: invariant forall i, j :: 0 <= i && i < j && j < round ==> chosenIndexes[i] != chosenIndexes[j]
+
+// C09: best of `tries` samplings by total weight: the result is one of the samplings, hence cnt pairwise different
+// in-range indexes (with positive weights and cnt >= 1 the first sampling already has a positive total, so a result
+// is always selected).
+//@ func ChooseSomeMaxWeight
+//@ modifies RngLast
+//@ requires tries >= 1 && 1 <= cnt && cnt <= len(weights) && okWeights(weights)
+//@ ensures len(result) == cnt
+//@ ensures forall i :: 0 <= i && i < len(result) ==> 0 <= result[i] && result[i] < len(weights)
+//@ ensures forall i, j :: 0 <= i && i < j && j < len(result) ==> result[i] != result[j]
+//@ loop 0: invariant 0 <= each && each <= tries && (each >= 1 ==> len(maxWeightResult) == cnt)
+//@ loop 0: invariant each >= 1 ==> (forall i :: 0 <= i && i < len(maxWeightResult) ==> 0 <= maxWeightResult[i] && maxWeightResult[i] < len(weights))
+//@ loop 0: invariant each >= 1 ==> (forall i, j :: 0 <= i && i < j && j < len(maxWeightResult) ==> maxWeightResult[i] != maxWeightResult[j])
+//@ loop 0: invariant each == 0 ==> maxWeightSum == 0
+//@ loop 1: invariant #i <= candidateWeightSum && candidateWeightSum <= #i * 1125899906842624
